@@ -281,3 +281,50 @@ Fixpoint substo (sigma : Z -> Z) (o : obj) : obj :=
   | _ => o
   end.
 Definition substg (sigma : Z -> Z) (g : graph) : graph := fun nr => substo sigma (g nr).
+
+(* ------------------------------------------------------------------ *)
+(* resource consolidation (pkg/pdfcpu/model/xreftable.go: ConsolidatePageResources ->
+   consolidatePageResourcesForNode -> consolidateResources / consolidateResourceSubDict).
+   One resource category (Font, XObject, ExtGState, ColorSpace, Pattern, Shading, Properties)
+   at a time.  A category dict maps resource names to objects (here: object ids); it may be
+   an indirect object SHARED by several pages (through per-page Resources, one shared
+   Resources dict, or inherited Resources): sharing is explicit, pages refer to a dict id. *)
+Definition rdict := list (bytes * Z).
+Definition rstore := Z -> rdict.
+Definition rpage := (Z * list bytes)%type.     (* (shared category dict id, names the content uses) *)
+
+Fixpoint lookupR (k : bytes) (d : rdict) : option Z :=
+  match d with
+  | [] => None
+  | (k', v) :: r => if beqb k' k then Some v else lookupR k r
+  end.
+Definition memb (k : bytes) (l : list bytes) : bool := existsb (beqb k) l.
+
+(* consolidateResourceSubDict: `for k := range d1 { if !res[k] { d1.Delete(k) } }` *)
+Definition pruneR (used : list bytes) (d : rdict) : rdict :=
+  filter (fun kv => memb (fst kv) used) d.
+
+Definition updR (st : rstore) (id : Z) (d : rdict) : rstore :=
+  fun i => if i =? id then d else st i.
+
+(* the pass as written: consolidateResources puts o.Clone() / d1.Clone() of the dereferenced
+   category dict into pAttrs.Resources; pruning works on the clone, the page gets it as its
+   own direct dict, the shared object is untouched *)
+Fixpoint consolidateCloned (st : rstore) (pages : list rpage) : rstore * list rdict :=
+  match pages with
+  | [] => (st, [])
+  | p :: r =>
+      let d := pruneR (snd p) (st (fst p)) in
+      let (st', ds) := consolidateCloned st r in
+      (st', d :: ds)
+  end.
+
+(* the same pass without the clone: pruning deletes from the shared object *)
+Fixpoint consolidateInPlace (st : rstore) (pages : list rpage) : rstore * list rdict :=
+  match pages with
+  | [] => (st, [])
+  | p :: r =>
+      let d := pruneR (snd p) (st (fst p)) in
+      let (st', ds) := consolidateInPlace (updR st (fst p) d) r in
+      (st', d :: ds)
+  end.
